@@ -113,6 +113,8 @@ class Context(object):
         self.handler_index = {}      # event handler -> index in the activator's list
         self.kind_cache = {}
         self.pending = {}            # shadow scheduler: handler -> Time
+        self.G = self.G_prev = self.initial_G = None   # global-state snapshots (after / before the last commit)
+        self.out_records = []
         self.setting = None
         self.notes = {}
 
@@ -170,6 +172,16 @@ class Core(Monitor):
                 ctx.handler_tagger[handler] = tagger
         for index, handler in enumerate(activator.get_event_handlers()):
             ctx.handler_index[handler] = index
+        cnodes = state_handler.extract_global_state()
+        ctx.G = snapshot_state(cnodes)
+        ctx.G_prev = ctx.G
+        ctx.initial_G = ctx.G
+        ctx.charges = {tuple(u.identifier): (dict(u.charge) if u.charge is not None else None)
+                       for u in walk_units(cnodes)}
+        ctx.children = {tuple(c.value.identifier): [tuple(k.value.identifier) for k in c.children]
+                        for c in walk_cnodes(cnodes)}
+        ctx.weights = {tuple(c.value.identifier): c.weight for c in walk_cnodes(cnodes)}
+        ctx.roots = [tuple(c.value.identifier) for c in cnodes]
 
     def on_push(self, scheduler, time, handler):
         self.ctx.pending[handler] = time
@@ -210,6 +222,10 @@ class Core(Monitor):
         self._last_kinds = (self._last_kinds + ((kind, changed),))[-4:]
         if len(self._last_kinds) == 4:
             self.grams.add(self._last_kinds)
+        ctx.G_prev = ctx.G
+        ctx.G_cnodes = state_handler.extract_global_state()
+        ctx.G = snapshot_state(ctx.G_cnodes)
+        ctx.out_records = records
         ctx.step += 1
         self.final_time = now
 
